@@ -7,7 +7,8 @@ Transcribed (snapshot ef0888e + the `fix:` commits listed in findings/C18.txt):
   influxdb/models it calls (`EscapeMeasurement ∘ unescapeMeasurement`, `escapeTag`, `escape.String`,
   `EscapeStringField`, `appendField`, tags with an empty value are skipped)                      → `record`;
 * `replay.go` `readPointsFromIO`: `bufio.Scanner` line splitting (split at '\n', one trailing '\r' dropped, token
-  limit 64 MiB since 45d6388), three lines per point, first parse error ends the reading                        → `scanLines`, `frames`, `readStream`;
+  limit 64 MiB since 45d6388), three lines per point, first parse error ends the reading                        → `spanNL`, `spanLP`, `readFrames`, `readStream`
+  (the third line ends at the first line feed outside quoted field values since c988361; `readFramesOld` is the snapshot's reader);
 * `replay.go` `replayStreamFromChan` / `replayBatchFromChan`: `diff = zero − first`, wait time, shifted time,
   batch `tmax` rule                                                                              → `replayStream`, `replayBatches`;
 * `edge/messages.go` `bufferedBatchMessage.MarshalJSON/UnmarshalJSON`, `readBatchFromIO`: at VALUE level — numbers
@@ -179,6 +180,74 @@ def dropCR (l : Bytes) : Bytes :=
   | some c => if c = CR then l.dropLast else l
   | none => l
 
+/-- `bufio.ScanLines`' search: the bytes before the first '\n', and what follows it (`none`: no '\n'). -/
+def spanNL : Bytes → Bytes × Option Bytes
+  | [] => ([], none)
+  | c :: r => if c = NL then ([], some r) else ((c :: (spanNL r).1), (spanNL r).2)
+
+/-- State of `scanLineProtocolLine` (replay.go, since the `fix:` commit c988361): inside a quoted field value?
+past the first unescaped space? how many unquoted `=` and `,` were seen in the field section? -/
+structure LPState where
+  quoted : Bool := false
+  fields : Bool := false
+  equals : Nat := 0
+  commas : Nat := 0
+deriving DecidableEq, Repr, Inhabited
+
+/-- One byte that is neither a backslash nor the terminating line feed (the `switch` of `scanLineProtocolLine`). -/
+def lpStep (s : LPState) (c : UInt8) : LPState :=
+  if c = SP ∧ !s.fields then { s with fields := true }
+  else if !s.fields ∨ c = NL then s
+  else if c = EQ ∧ !s.quoted then { s with equals := s.equals + 1 }
+  else if c = COMMA ∧ !s.quoted then { s with commas := s.commas + 1 }
+  else if c = DQ ∧ s.equals > s.commas then { s with quoted := !s.quoted }
+  else s
+
+/-- `scanLineProtocolLine`'s search: the bytes before the first '\n' that is not inside a quoted field value (a
+backslash protects the byte after it), and what follows it. -/
+def spanLP : LPState → Bytes → Bytes × Option Bytes
+  | _, [] => ([], none)
+  | s, [c] => if c = BS then ([c], none) else if c = NL ∧ !s.quoted then ([], some []) else ([c], none)
+  | s, c :: d :: rest =>
+    if c = BS then (c :: d :: (spanLP s rest).1, (spanLP s rest).2)
+    else if c = NL ∧ !s.quoted then ([], some (d :: rest))
+    else (c :: (spanLP (lpStep s c) (d :: rest)).1, (spanLP (lpStep s c) (d :: rest)).2)
+
+inductive Tok where
+  | eof                              -- no more input
+  | tooLong                          -- `bufio.ErrTooLong`
+  | tok (raw : Bytes) (rest : Bytes) -- a token (before `dropCR`) and the unread input
+deriving Repr
+
+/-- One `Scanner.Scan()` with the given search: at the end of the input a non-empty remainder is a token. -/
+def takeTok (max : Nat) (span : Bytes → Bytes × Option Bytes) (data : Bytes) : Tok :=
+  if data.isEmpty then .eof
+  else if (span data).1.length ≥ max then .tooLong
+  else .tok (span data).1 ((span data).2.getD [])
+
+/-- `readPointsFromIO`'s loop over the recording: database line, retention policy line, line protocol line (the
+split function switches to the quote-aware search for every third token); `false` = the reader reports an error
+(a scan error, or "expected another line"). `fuel` only makes the recursion structural. -/
+def readFramesAux (max : Nat) : Nat → Bytes → List Frame × Bool
+  | 0, _ => ([], false)
+  | fuel + 1, data =>
+    match takeTok max spanNL data with
+    | .eof => ([], true)
+    | .tooLong => ([], false)
+    | .tok db r1 =>
+      match takeTok max spanNL r1 with
+      | .tok rp r2 =>
+        match takeTok max (spanLP {}) r2 with
+        | .tok ln r3 =>
+          (⟨dropCR db, dropCR rp, dropCR ln⟩ :: (readFramesAux max fuel r3).1, (readFramesAux max fuel r3).2)
+        | _ => ([], false)
+      | _ => ([], false)
+
+/-- Framing layer of `readPointsFromIO`. -/
+def readFrames (max : Nat) (data : Bytes) : List Frame × Bool := readFramesAux max (data.length + 1) data
+
+/-! #### The snapshot's reader (before c988361) -/
+
 /-- Split at every '\n': the '\n'-terminated lines, and the (possibly empty) unterminated tail. -/
 def splitNL : Bytes → List Bytes × Bytes
   | [] => ([], [])
@@ -208,8 +277,9 @@ def frames : List Bytes → Bool → List Frame × Bool
   | [], e => ([], !e)
   | _, _ => ([], false)
 
-/-- Framing layer of `readPointsFromIO`. -/
-def readFrames (max : Nat) (data : Bytes) : List Frame × Bool :=
+/-- Framing layer of `readPointsFromIO` AS IT WAS IN THE SNAPSHOT (plain `bufio.ScanLines` for all three lines): kept
+for the theorems that characterise the defect repaired by c988361. -/
+def readFramesOld (max : Nat) (data : Bytes) : List Frame × Bool :=
   let (ls, e) := scanLines max (rawLines data)
   frames ls e
 
